@@ -77,6 +77,7 @@ Inductive has_type (vs:views) : tenv -> expr -> ty -> Prop :=
 | T_And G l r sv : has_type vs G l TBool -> has_type vs G r TBool -> has_type vs G (EBin OpAND l r sv) TBool
 | T_NegInt G a : has_type vs G a TInt -> has_type vs G (EUn UoNEG a) TInt
 | T_NegBool G a : has_type vs G a TBool -> has_type vs G (EUn UoNEG a) TBool
+| T_Str G a t : scalar_ty t -> has_type vs G a t -> has_type vs G (EUn UoSTRING a) TStr
 | T_ListLit G es t : has_types vs G es t -> has_type vs G (EList es) (TList t)
 | T_SetLit G es t : has_types vs G es t -> has_type vs G (ESet es) (TSet t)
 | T_Concat G l r sv t : has_type vs G l (TList t) -> has_type vs G r (TList t) -> has_type vs G (EBin OpBITOR l r sv) (TList t)
@@ -453,6 +454,11 @@ Proof.
   - (* neg bool *) intros G a _ Ha. destruct Ha as [k F]. exists (S k). intros n sc Hn E. fuel n m.
     sub F m sc E v sc1 HA VA E1. destruct (vt_bool _ VA) as [x ->]. rewrite HA. cbn [bind].
     change (assoc unop_eqb UoNEG unary_functions) with (Some U_unaryNeg). cbn [apply_ufun unary_neg]. done E1.
+  - (* str of a scalar *) intros G a t SC _ Ha. destruct Ha as [k F]. exists (S k). intros n sc Hn E. fuel n m.
+    sub F m sc E v sc1 HA VA E1. rewrite HA. cbn [bind].
+    change (assoc unop_eqb UoSTRING unary_functions) with (Some U_UnaryString). cbn [apply_ufun].
+    pose proof (vt_scalar _ _ SC VA) as K. destruct v; try contradiction; [destruct b|..];
+      cbn [unary_string unary_string_s bind]; done E1.
   - (* list literal *) intros G es t _ Hs. destruct Hs as [k F]. exists (S k). intros n sc Hn E. fuel n m.
     destruct (F m sc ltac:(lia) E) as [vs0 [sc1 [HS [VS E1]]]]. rewrite HS. cbn [bind].
     exists (VList vs0), sc1. split; [reflexivity|]. split; [exact VS|exact E1].
@@ -792,4 +798,10 @@ Example main_view_runs :
   evaluate_view 8 example_views "main" [("p0", VInt 5)]
   = Ok (VMap [("n", VInt 2); ("rows", VList [VMap [("y", VInt 11)]; VMap [("y", VInt 12)]])],
         [("xs", VList [VInt 1; VInt 2]); ("a", VMap [("d", VInt 10)]); ("p0", VInt 5)]).
+Proof. vm_compute. reflexivity. Qed.
+
+(* str of a scalar is in the judgement (second pass): typed, and it runs *)
+Example str_typed : has_type [] [("n", TInt)] (EUn UoSTRING (EBin OpADD (EName "n") (ELit (VInt 1)) "")) TStr.
+Proof. apply (T_Str [] _ _ TInt S_int). apply T_Arith; [constructor|apply T_Name; reflexivity|apply T_Lit; reflexivity]. Qed.
+Example str_runs : eval 5 [] [("n", VInt 41)] (EUn UoSTRING (EBin OpADD (EName "n") (ELit (VInt 1)) "")) = Ok (VStr "42", [("n", VInt 41)]).
 Proof. vm_compute. reflexivity. Qed.
